@@ -490,6 +490,19 @@ def rule_through(facts, rep, rule):
             if ex is not None:
                 ok = False
                 detail = f"the function can leave before the scan (`{hirpp.expr(ex)[:60]}`): bytes of this call bypass the carried state"
+        if not ok and fn == "write_all":
+            # write_all may also hand the bytes to the module's own `write` (which is decided above): every use of the inner
+            # writer and of the state is `write(raw, state, <part of buf>)`
+            occ_r, calls_r = _uses_of(b["hir"], "raw")
+            occ_s, calls_s = _uses_of(b["hir"], "state")
+            via = [c for c in calls_r if hir.is_call(c, M + "write") and [hir.local_name(a) for a in c["args"][:2]] == ["raw", "state"]]
+            if via and len(via) == len(calls_r) == len(occ_r) and len(calls_s) == len(occ_s) == len(via):
+                args_ok = all(hir.is_local(hir.peel(x), "buf") or (hir.peel(x).get("k") == "index" and hir.is_local(hir.peel(x)["e"], "buf")) or
+                              hir.peel(x).get("k") == "local" for c in via for x in [c["args"][2]])
+                rep.check(args_ok, rule, b["path"], "scan-is-unconditional", "write_all delegates every byte to strip::write(raw, state, ..)", loc(b))
+                rep.ok(rule, b["path"], "inner-writer-gets-only-stripped-pieces", "through strip::write")
+                rep.ok(rule, b["path"], "no-second-scanner", "through strip::write")
+                continue
         rep.check(ok, rule, b["path"], "scan-is-unconditional", detail, loc(b))
         if not ok:
             continue
